@@ -1,6 +1,7 @@
 (* Regex/Greedy.v — the unbounded-greedy-dot test (pattern.rs:104-126) on the HIR mirror.
    [greedy_old] is the function as it was (it does not look below a repetition that is not itself a
-   greedy dot repetition); [greedy] the code after the repair of finding F8. *)
+   greedy dot repetition); [greedy_nocap] the code after the repair of finding F8 only (a dot inside a
+   capture group is not recognised); [greedy] the code after the repairs of F8 and F9. *)
 From Coq Require Import List NArith Bool.
 From LogosV Require Import Regex.Re.
 Import ListNotations.
@@ -32,6 +33,9 @@ Definition is_dot (r : re) : bool := existsb (re_is r) dots.
 Definition rep_is_greedy_dot (mx : option N) (g : bool) (sub : re) : bool :=
   is_dot sub && (match mx with None => true | Some _ => false end) && g.
 
+(* a dot wrapped in capture groups is still a dot: (.)* *)
+Fixpoint strip_caps (r : re) : re := match r with RCap s => strip_caps s | _ => r end.
+
 Fixpoint greedy_old (r : re) : bool :=
   match r with
   | RRep _ mx g sub => rep_is_greedy_dot mx g sub
@@ -41,9 +45,19 @@ Fixpoint greedy_old (r : re) : bool :=
   | _ => false
   end.
 
+(* after the repair of F8 only: the dot must be the direct operand of the repetition *)
+Fixpoint greedy_nocap (r : re) : bool :=
+  match r with
+  | RRep _ mx g sub => rep_is_greedy_dot mx g sub || greedy_nocap sub
+  | RCap s => greedy_nocap s
+  | RCat rs => existsb greedy_nocap rs
+  | RAlt rs => existsb greedy_nocap rs
+  | _ => false
+  end.
+
 Fixpoint greedy (r : re) : bool :=
   match r with
-  | RRep _ mx g sub => rep_is_greedy_dot mx g sub || greedy sub
+  | RRep _ mx g sub => rep_is_greedy_dot mx g (strip_caps sub) || greedy sub
   | RCap s => greedy s
   | RCat rs => existsb greedy rs
   | RAlt rs => existsb greedy rs
@@ -52,7 +66,7 @@ Fixpoint greedy (r : re) : bool :=
 
 (* specification: some sub-expression, at any depth, is an unbounded greedy repetition of a dot *)
 Inductive HasGreedyDot : re -> Prop :=
-| G_here mn sub : is_dot sub = true -> HasGreedyDot (RRep mn None true sub)
+| G_here mn sub : is_dot (strip_caps sub) = true -> HasGreedyDot (RRep mn None true sub)
 | G_rep mn mx g sub : HasGreedyDot sub -> HasGreedyDot (RRep mn mx g sub)
 | G_cap s : HasGreedyDot s -> HasGreedyDot (RCap s)
 | G_cat rs r : In r rs -> HasGreedyDot r -> HasGreedyDot (RCat rs)
